@@ -6,6 +6,7 @@ import Gowarc.Driver.RecordH
 import Gowarc.Driver.BlockH
 import Gowarc.Driver.RevisitH
 import Gowarc.Driver.WriterH
+import Gowarc.Driver.NameH
 import Gowarc.Driver.CutsH
 import Gowarc.Driver.ResH
 import Gowarc.Driver.CrashH
@@ -34,6 +35,7 @@ def handleLine (line : String) : String :=
       | "revisit" => handleRevisit args
       | "xpolb" => handleXpolBuild args
       | "writer" => handleWriter args
+      | "namegen" => handleNamegen args
       | "cuts" => handleCuts args
       | "stream" => handleCuts args
       | "res" => handleRes args
